@@ -19,6 +19,7 @@ import (
 func init() { register("C10", "other", runC10) }
 
 func runC10(c *Ctx) {
+	c10Prog = c.P
 	R := c.R
 	R.Rule("C10.R1", "routing: an incoming attribute whose key is \"style\" is never kept through the generic attribute rules when style rules exist for the element (global style rules, a non-empty element entry, or a matching element pattern with rules); it goes through sanitizeStyles instead")
 	R.Rule("C10.R2", "declaration admission: in sanitizeStyles a declaration is appended to the kept list only across handler(v)==true, stringInSlice(v, enum) or regexp.MatchString(v) of a rule registered for the derived property in the element's or the global style table; the property is derived from dec.Property only by ToLower and TrimPrefix of constant vendor prefixes; v is removeUnicode(ToLower(dec.Value)) in that order (escapes are decoded on the lower-cased text because the escape regexp only knows lower-case hex digits)")
@@ -446,6 +447,8 @@ func restIdx(k, pfx string) string {
 
 // c10PropDerivation: the property symbol is a phi whose operands are strings.ToLower(dec.Property)
 // or strings.TrimPrefix(<itself>, <element of a constant slice>).
+var c10Prog *load.Program
+
 func c10PropDerivation(A *pa.Analysis, fn *ssa.Function, propSym, propSrc string) (bool, string) {
 	for _, b := range fn.Blocks {
 		for _, in := range b.Instrs {
@@ -473,6 +476,9 @@ func c10PropDerivation(A *pa.Analysis, fn *ssa.Function, propSym, propSrc string
 								if al, ok := sl.X.(*ssa.Alloc); ok && allConstStores(al) {
 									continue
 								}
+							}
+							if _, ok := model.ConstSliceOf(c10Prog, ia.X); ok {
+								continue // a package-level list of constants that is only ever read
 							}
 						}
 					}
